@@ -116,6 +116,18 @@ Declared(op, calls, jobid, uriV) ==
       groups |-> IF jn = {} \/ op \notin {"PrintJob", "CreateJob"} THEN <<G(1, opA6)>> ELSE <<G(1, opA6), G(2, jobG)>>,
       payload |-> HasPayload(op)]
 
+(* C10 / C18 name charset and natural language but not their values: these two are compared by syntax only *)
+OpaqueHdr(v, kind) == IF v.k = kind THEN [k |-> kind] ELSE v
+ReqNorm(gs) ==
+  LET n == NormMsg(gs) IN
+  [i \in 1..Len(n) |->
+     IF n[i].tag = 1
+     THEN [tag |-> 1, attrs |-> [a \in DOMAIN n[i].attrs |->
+                                   IF a = N_charset THEN OpaqueHdr(n[i].attrs[a], "Charset")
+                                   ELSE IF a = N_lang THEN OpaqueHdr(n[i].attrs[a], "NaturalLanguage")
+                                   ELSE n[i].attrs[a]]]
+     ELSE n[i]]
+
 (* ------------- C09: order of the first attributes on the wire ---------- *)
 (* names = attribute names of the first group in wire order *)
 InNames(n, names) == \E i \in 1..Len(names) : names[i] = n
